@@ -44,14 +44,7 @@ func ruleFwdMD(r *Run) {
 		return
 	}
 	hm := p.StructField("handler", "method")
-	var methodVals []ssa.Value
-	eachInstr(cch, func(in ssa.Instruction) {
-		if st, ok := in.(*ssa.Store); ok {
-			if fa, ok := st.Addr.(*ssa.FieldAddr); ok && fieldOfAddr(fa) == hm {
-				methodVals = append(methodVals, p.origins(st.Val, originOpts{})...)
-			}
-		}
-	})
+	methodVals := p.fieldValuesIn(cch, hm)
 	n := 0
 	for _, g := range p.proxyClosures() {
 		eachInstr(g, func(in ssa.Instruction) {
